@@ -25,9 +25,14 @@ def load_program():
 def semantic_hooks():
     """gradient(f) is summarised as 'the derivative of f' (its real body is the
     subject of obligations G1-G3 in gradient_obligations())."""
+    def grad(i, fv, a, k, n):
+        f = a[0]
+        if isinstance(f, DerivV):
+            return DerivV(f.f, f.order + 1)
+        return DerivV(f)
     return {
-        "atsim.potentials._util:gradient": lambda i, fv, a, k, n: DerivV(a[0]),
-        "spec.writers:D": lambda i, fv, a, k, n: DerivV(a[0]),
+        "atsim.potentials._util:gradient": grad,
+        "spec.writers:D": grad,
         "spec.writers:ANY": lambda i, fv, a, k, n: Opaque(("any",)),
     }
 
@@ -171,7 +176,7 @@ def gradient_obligations(chk, P, rule="G"):
            expect="phi(hasattr(f,'deriv') ? f.deriv(x) : central difference)", key=rule + "1|gradient|select")
     if ok:
         a = I.num(val.a)
-        want_a = ep.app(("attr", fpath, "deriv"), [x.rf])
+        want_a = ep.app(fpath, [x.rf], dorder=1)
         chk.ob(rule + "2", "analytic branch is f.deriv(x)", ep.equal(a, want_a)[0], site=site, found=a, expect=want_a,
                key=rule + "2|gradient|analytic")
         b = I.num(val.b)
@@ -188,7 +193,7 @@ def gradient_obligations(chk, P, rule="G"):
         I2 = make_interp(P, hooks=False, assumptions={hd.key(): True})
         g2 = I2.run(gfi, [f, h])
         d = I2.call(I2.getattr(g2, "deriv"), [x], {})
-        want = ep.app(("attr", fpath, "deriv2"), [x.rf])
+        want = ep.app(fpath, [x.rf], dorder=2)
         chk.ob(rule + "5", "gradient(f).deriv(x) delegates to f.deriv2(x)", ep.equal(I2.num(d), want)[0], site=site, found=d,
                expect=want, key=rule + "5|gradient|deriv2-delegation")
     # default step sizes
